@@ -1989,3 +1989,108 @@ REVERT("revert-const-arith-needs-number", "C17", "fire T11", "7d42b08", "pre-fix
 REVERT("revert-array-size-consts-checked", "C17", "fire T10", "83d174a", "pre-fix tree: `[u8; N]` with undeclared / non-usize N accepted")
 REVERT("revert-signed-mul-overflow", "C03", "fire A8", "31f7aba", "pre-fix tree: +2^(bits-1) products of signed multiplication do not panic")
 REVERT("revert-width-adjustment", "C05", "fire S9", "b5e5554", "pre-fix tree: untyped bound numbers keep 32 wires; array reads use the result type as stride")
+
+# ---------------------------------------------------------------- tenth seed batch as mutants
+M("v8-assign-read-tree-early-break", "C01", "fire V8", "src/compile.rs",
+  """                            let out_of_bounds_elem = 1;
+                            for mux_layer in (0..index.len()).rev() {
+                                let mut muxed_array = Vec::new();
+                                let s = index[mux_layer];
+                                let mut i = 0;
+                                while i < collection.len() {""",
+  """                            let out_of_bounds_elem = 1;
+                            let mut remaining_elems = num_elems;
+                            for mux_layer in (0..index.len()).rev() {
+                                if remaining_elems == 1 {
+                                    break;
+                                }
+                                remaining_elems /= 2;
+                                let mut muxed_array = Vec::new();
+                                let s = index[mux_layer];
+                                let mut i = 0;
+                                while i < collection.len() {""", "seed C14-f: the accessor copy of the read tree stops one layer early for lengths that are not a power of two")
+M("t12-block-type-from-any-expr", "C17", "fire T12", "src/check.rs",
+  """                if i == block.len() - 1 {
+                    if let StmtEnum::Expr(expr) = &stmt.inner {
+                        ret_ty = expr.ty.clone();
+                    }
+                }""",
+  """                let _ = i;
+                if let StmtEnum::Expr(expr) = &stmt.inner {
+                    ret_ty = expr.ty.clone();
+                }""", "seed C17-g: an expression statement in the middle of a block types the block")
+M("t12-quiet-reset-each-statement", "C17", "quiet", "src/check.rs",
+  """                if i == block.len() - 1 {
+                    if let StmtEnum::Expr(expr) = &stmt.inner {
+                        ret_ty = expr.ty.clone();
+                    }
+                }""",
+  """                let _ = i;
+                ret_ty = if let StmtEnum::Expr(expr) = &stmt.inner {
+                    expr.ty.clone()
+                } else {
+                    Type::Tuple(vec![])
+                };""", "behaviour-preserving: the block type is recomputed for every statement")
+M("j7-eq-circuit-balanced-tree-drops-leftover", "C13", "fire J7", "src/circuit.rs",
+  """        let mut is_eq = 1;
+        for (&x, &y) in x.iter().zip(y) {
+            let bits_eq = self.push_eq(x, y);
+            is_eq = self.push_and(is_eq, bits_eq)
+        }
+        is_eq""",
+  """        let mut is_eq: Vec<GateIndex> = Vec::with_capacity(x.len());
+        for (&x, &y) in x.iter().zip(y) {
+            is_eq.push(self.push_eq(x, y));
+        }
+        while is_eq.len() > 1 {
+            is_eq = is_eq
+                .chunks_exact(2)
+                .map(|pair| self.push_and(pair[0], pair[1]))
+                .collect();
+        }
+        is_eq.first().copied().unwrap_or(1)""", "seed C13-f: balanced AND tree drops the odd leftover of every level")
+M("d1-retain-pushes-in-hash-order", "C06", "fire D1", "src/register_circuit.rs",
+  """        for (gate_id, w) in self.circ.wires().enumerate() {
+            let inst = match w {""",
+  """        let (last_used, free_regs) = (&self.last_used, &mut self.free_regs);
+        self.wire_map.retain(|wire, reg| {
+            let is_live = last_used.contains_key(wire);
+            if !is_live {
+                free_regs.push(*reg);
+            }
+            is_live
+        });
+        for (gate_id, w) in self.circ.wires().enumerate() {
+            let inst = match w {""", "seed C06-f: registers of unread inputs are recycled in HashMap order")
+M("g7-input-read-by-out-register", "C16", "fire G7", "src/register_circuit.rs",
+  """        let mut regs = vec![false; self.max_reg_count];
+
+        for inst in &self.insts {""",
+  """        let flat: Vec<bool> = inputs.concat();
+        let mut regs = vec![false; self.max_reg_count];
+
+        for inst in &self.insts {
+            if let Op::Input(_) = inst.op {
+                regs[inst.out] = flat[inst.out];
+                continue;
+            }""", "seed C16-f: an Input instruction reads the flat inputs at the index of its output register")
+M("v12-or-shortcut-wrong-operand", "C01", "fire V12", "src/circuit.rs",
+  """    pub fn push_or(&mut self, x: GateIndex, y: GateIndex) -> GateIndex {
+        let xor = self.push_xor(x, y);""",
+  """    pub fn push_or(&mut self, x: GateIndex, y: GateIndex) -> GateIndex {
+        if let Some(&not_y) = self.negated.get(&y) {
+            if let Some(&x_and_not_y) = self.get_cached(&BuilderGate::And(x, not_y)) {
+                return self.push_xor(x, x_and_not_y);
+            }
+        }
+        let xor = self.push_xor(x, y);""", "seed C04-f: cache-dependent shortcut of push_or returns x ^ (x & !y) = x & y")
+M("v12-quiet-or-shortcut-correct", "C01", "quiet", "src/circuit.rs",
+  """    pub fn push_or(&mut self, x: GateIndex, y: GateIndex) -> GateIndex {
+        let xor = self.push_xor(x, y);""",
+  """    pub fn push_or(&mut self, x: GateIndex, y: GateIndex) -> GateIndex {
+        if let Some(&not_y) = self.negated.get(&y) {
+            if let Some(&x_and_not_y) = self.get_cached(&BuilderGate::And(x, not_y)) {
+                return self.push_xor(y, x_and_not_y);
+            }
+        }
+        let xor = self.push_xor(x, y);""", "behaviour-preserving: the same shortcut written correctly (y ^ (x & !y) = x | y)")
